@@ -759,9 +759,9 @@ def eval_args(case, ctx):
 def generate(ctx):
     rng = ctx.rng
     cases = []
-    for _ in range(ctx.n(32, 500)):
+    for _ in range(ctx.n(32, 250)):
         cases.append(gen_env(rng))
-    for _ in range(ctx.n(64, 900)):
+    for _ in range(ctx.n(64, 500)):
         cases.append(gen_args(rng))
     return cases
 
